@@ -409,18 +409,18 @@ def evidence(prop, spec, tier, seed, records, deaths, unfinished, planned, wall_
 
 SIM = "deterministic simulation with fault injection"
 MANIFEST_TEXT = {
- "C19": {"text": "seeded edit histories of watched files with delayed, reordered, duplicated, dropped, torn and failing notifications driven into the real watcher event loop inside a synctest bubble, sampled by readers (some racing with deliveries); keep-last-good / never-partial invariant after every event and convergence once faults stop",
+ "C19": {"text": "seeded edit histories of watched files with delayed, reordered, duplicated, dropped, torn and failing notifications driven into the real watcher event loop inside a synctest bubble, sampled by readers (some racing with deliveries); keep-last-good / never-partial invariant after every event and convergence once faults stop; plus reloads interleaved with reader goroutines at every mutex operation (mode interleave)",
          "note": "fsnotify and the OS are simulated; events carry the file content at the delivery instant as the real watcher does",
-         "technique": SIM + ": simulated file system and notification transport with fault injection, real event loop, version-history reference model"},
+         "technique": SIM + ": simulated file system and notification transport with fault injection, real event loop, version-history reference model; lock-level seeded scheduling of reloads against readers (every mutex operation a scheduling point) with a porcupine linearizability check of the recorded history"},
  "C14": {"text": "seeded sets of concurrent requests inside one scheduler bubble with all storage calls interleaved by the tape, each result compared with the request run alone; plus bursts of concurrent requests against a fresh registry under the Go race detector",
-         "note": "interleaving at storage-call granularity; the race clause relies on the detector's happens-before analysis and is weak evidence when clean",
-         "technique": SIM + ": seeded interleaving of several requests at the storage seam; race-detector build for the data-race clause"},
+         "note": "interleaving at storage-call granularity (modes '' and handlers) and at SQL-statement granularity with pop's SQLite mutex scheduled (mode statements); the race clause relies on the detector's happens-before analysis and is weak evidence when clean",
+         "technique": SIM + ": seeded interleaving of several requests at the storage seam and at the SQL-driver seam, client cancellation and an earlier failed request as faults; race-detector build for the data-race clause"},
  "C11": {"text": "seeded typed OPL programs accepted by the real type checker, conforming stores, every declared (namespace, relation) checked under tape-chosen schedules: no schema error may surface; the rejection half is a plain generator check (not simulation), reported separately in the evidence",
          "note": "acceptance is decided by keto's own parser; programs it rejects are skipped; KF-15 and KF-18 were found by this check and are repaired in /repo",
          "technique": SIM + " for the run-time half (seeded scheduler at the storage seam); seeded generator check for the rejection half"},
  "C09": {"text": "seeded stores and depths with the storage order (shard ids) varied per execution; tree soundness, expand-once, depth, completeness against a reachability reference, agreement with check and with the REST/gRPC transports",
-         "note": "narrow simulation target: the expand engine is sequential, the only nondeterminism is the storage order and paging; no faults",
-         "technique": SIM + " (storage-order search only): seeded uuid seam + paging knob, reachability reference model"},
+         "note": "narrow simulation target: the expand engine is sequential; the nondeterminism is the storage order, the paging and (mode faults) the position and kind of a failing storage call",
+         "technique": SIM + ": seeded uuid seam (storage order) + paging knob + storage-call fault enumeration, reachability reference model"},
  "C08": {"text": "seeded (config, store, tuple) cases compared across the engine, four REST check variants, gRPC Check and REST/gRPC batch entries at tape-chosen positions among bad entries; plus BatchCheck inside the scheduler bubble with tape-chosen worker finishing orders",
          "note": "limits non-binding so that a decision is one value; HTTP/gRPC wire framing not exercised",
          "technique": SIM + ": differential transports over generated states, seeded scheduling of batch workers at the storage seam"},
